@@ -86,6 +86,8 @@ def run(prog, rep, tier):
     check_best_predicate(prog, r5)
     r6 = rep.rule("R06.6", "Table::insert reports any_changed when a visible path is added or a visible path is replaced")
     check_insert_any_changed(prog, r6)
+    r7 = rep.rule("R06.7", "a change with any_changed set is emitted whether or not the best path changed")
+    check_emission_guard(prog, r7)
 
 
 # ---------------------------------------------------------------------------------------------- R06.5
@@ -514,3 +516,28 @@ def _mentions_deferring(e):
         if isinstance(x, tuple) and x and ((x[0] == "var" and x[1] == "deferring") or (x[0] == "field" and x[2] == "deferring")):
             return True
     return False
+
+
+# ---------------------------------------------------------------------------------------------- R06.7
+def check_emission_guard(prog, r):
+    """An NlriChange whose any_changed is a computed value (the path list changed somewhere, not necessarily at rank 1) must
+    be produced whenever that value is true: the construction may be conditioned on `best_changed || any_changed`, never on
+    best_changed alone (add-path and ECMP consumers rebuild their top-N only from notifications)."""
+    n = 0
+    for fv, bi, si, s in nlri_change_sites(prog):
+        oa, ob = agg_field(s, "any_changed"), agg_field(s, "best_changed")
+        if oa is None or ob is None or "k" in oa or "k" in ob:
+            continue
+        rend = Renderer(fv, depth=6)
+        ea, eb = rend.operand(oa, 6), rend.operand(ob, 6)
+        if ea == eb:
+            continue
+        n += 1
+        r.analysed(root_name(prog, fv.key))
+        need_best = [g for g, l, h in flat_guards(fv, bi) if show(g, 200) == show(eb, 200) and l == {"true"}]
+        if need_best:
+            r.fail(root_name(prog, fv.key), "emit-needs-best-changed", "the NlriChange is built only when best_changed holds although any_changed (%s) is computed separately: a re-ranking or "
+                   "removal below rank 1 is never announced, so add-path peers and the ECMP set keep a stale path list" % show(ea, 40), fv.loc(bi))
+        else:
+            r.ok("%s: a change is emitted when best_changed or any_changed holds" % short(root_name(prog, fv.key)))
+    r.floor("NlriChange constructions with a computed any_changed", n, 4)
